@@ -486,6 +486,17 @@ def constness_contracts(cs, tier):
             post.append(("%s-elements-are-const-through-a-const-byte-view" % m["name"], "RET.c%d" % i))
             post.append(("%s-elements-are-mutable-through-a-mutable-view (control)" % m["name"], "!RET.m%d" % i))
         out.append(Contract(f, "%s:%s::array element constness" % (cs.name, idn), props={"C11"}, pre=[], post=post, assigns=[]))
+    WL = ["const cursor", "init(const cursor)", "dont_move(const cursor)", "init_dont_move(const cursor)"]
+    for idn, vm in getattr(g, "constview_roots", []):
+        f = u.root("r_%s_constviews" % idn)
+        post = []
+        for i, m_ in vm:
+            for k, lab in enumerate(WL):
+                post.append(("%s-through-%s-is-never-a-mutable-view" % (m_["name"], lab), "RET.c%d[%d] != 1" % (i, k)))
+            post.append(("%s-through-init(const cursor)-is-a-const-byte-view (detection control)" % m_["name"], "RET.c%d[1] == 2" % i))
+            post.append(("%s-through-a-mutable-cursor-is-a-mutable-view (detection control)" % m_["name"], "RET.m%d == 1" % i))
+        out.append(Contract(f, "%s:%s::views through const cursors are const" % (cs.name, idn), props={"C11"}, pre=[], post=post, assigns=[],
+                            note="decided by clang while lowering (expression-validity detection + byte_type_t); CBMC checks the resulting constants"))
     f = u.root("r_conversions")
     n = len(g.levels)
     post = [("views-convert-towards-const", " && ".join("RET.to_const[%d]" % k for k in range(n))), ("views-do-not-convert-from-const", " && ".join("!RET.from_const[%d]" % k for k in range(n))),
